@@ -164,15 +164,41 @@ def run(ctx):
     for k in range(40 if ctx.quick else 1000):
         n = int(rng.integers(2, 40))
         P = np.cumsum(rng.uniform(0.5, 400, n))
+        # structured pressure grids next to the random ones (a shortcut keyed on a few steps - equal first and last step, equal leading
+        # steps, ... - is only wrong on grids that look regular where it looks): regular grids with extra interior knots, regular
+        # grids with one odd step in the middle / at one end, two step sizes, geometric
+        grid_kind = ["random", "regular + interior knots", "regular", "regular, one odd interior step", "two step sizes", "geometric", "regular + knot in first interval"][k % 7]
+        if grid_kind != "random" and n >= 6:
+            h_ = float(rng.choice([1.0, 10.0, 25.0, 0.5]))
+            base = h_ * np.arange(1, n + 1)
+            if grid_kind == "regular + interior knots":
+                extra = rng.uniform(base[1], base[-2], int(rng.integers(1, 4)))
+                P = np.union1d(base, extra)
+            elif grid_kind == "regular":
+                P = base
+            elif grid_kind == "regular, one odd interior step":
+                j_ = int(rng.integers(2, n - 2))
+                P = np.concatenate([base[:j_], base[j_:] + float(rng.uniform(0.3, 7)) * h_])
+            elif grid_kind == "two step sizes":
+                j_ = int(rng.integers(2, n - 2))
+                P = np.concatenate([base[:j_], base[j_ - 1] + 7.5 * h_ * np.arange(1, n - j_ + 1), [base[j_ - 1] + 7.5 * h_ * (n - j_) + h_]])
+            elif grid_kind == "geometric":
+                P = 14.7 * 1.17 ** np.arange(n)
+            else:
+                P = np.union1d(base, [base[0] + 0.37 * h_])
+            n = len(P)
+            mu, z = None, None
         mu = np.exp(rng.uniform(-5, 1, n))
         z = rng.uniform(0.2, 2.5, n)
+        if k % 14 >= 7:          # half of the structured grids with an ideal gas: the transform is then p^2 - p0^2 exactly
+            mu, z = np.ones(n), np.ones(n)
         m = np.asarray(pseudopressure(P, mu, z), float)
         f = 2 * P / (mu * z)
         want = np.concatenate([[0.0], np.cumsum(np.diff(P) * (f[1:] + f[:-1]) / 2)])
         ev += 1
         if m.shape != P.shape or m[0] != 0.0 or np.any(np.diff(m) <= 0) or not np.allclose(m, want, rtol=1e-12):
             bad("stand-alone table transform is not the (zero-based, strictly increasing) trapezoid integral of 2p/(mu z) over pressure",
-                dict(pressure=[float(x) for x in P], viscosity=[float(x) for x in mu], z=[float(x) for x in z]), [float(x) for x in m[:5]])
+                dict(grid=grid_kind, pressure=[float(x) for x in P], viscosity=[float(x) for x in mu], z=[float(x) for x in z]), [float(x) for x in m[:5]])
         # the same table in another row order (listed from high to low pressure, or shuffled) and in other containers: the
         # transform integrates along the rows as given, so every row keeps its value relative to the first row listed
         if n >= 3:
